@@ -34,6 +34,9 @@ CHECKS={
  "C10":dict(tech="runtime monitoring: independent validator of Data(), shadow replay of builder histories (reference geometry), 47 public methods under recover/watchdog with bitwise receiver/argument snapshots (sentinel-filled capacity tail)",
    text="Histories of 1-25 builder calls with hostile arguments are executed; the resulting data is validated (decodable both ways, moves, closes, zero-length, arc parameters), compared with a shadow replay of the requested geometry, and 47 queries/derivations are applied under recover with before/after snapshots of receiver, spare capacity and arguments; a second stratum feeds NaN/Inf and only requires the builder not to panic.",
    note="trusted: harness/geom and the validator's reading of the documented Data() layout; the shadow does not follow histories whose outcome is decided by rounding at Epsilon, 1e9-sized coordinates, radius-corrected arcs or MoveTo+Close (pinned finding); panics of deep operations on hostile paths are matched as call-site findings with rate caps", ref="DESIGN.md §5 C10"),
+ "C11":dict(tech="runtime monitoring: independent readers of the three emitted syntaxes (SVG path data, PDF path operators, PostScript incl. ellipse/ellipsen) compared parametrically with the source; hostile-input robustness runs of ParseSVGPath/ParseSVG under recover and watchdog",
+   text="Generated builder paths are printed with String/ToSVG/ToPDF/ToPS at Precision 8 and 4; the output is read back by independent reference readers (and by ParseSVGPath) and compared with the source at 9 parameters per segment within the precision of the number formats. ParseSVGPath and ParseSVG are fed grammar-based, mutated, whitespace-only, long and random inputs and must return a value or an error without panicking or hanging.",
+   note="trusted: harness/refsyn readers (SVG 1.1 path grammar, PDF 32000-1 path operators, Red Book arc/arcn + the PS renderer's ellipse procedures); arc tolerances include the conditioning of the end-point parametrisation (rx/ry)/sqrt(1-lambda)", ref="DESIGN.md §5 C11"),
 }
 NA_REASON="monitor not built yet (work in progress; see DESIGN.md §5)"
 m={"version":1,"setup_cmd":"./run.sh setup",
